@@ -332,3 +332,95 @@ Proof.
   match type of Hcut with _ ∈ default [] ?o => destruct o as [cs|] eqn:E end; simpl in Hcut; [|by apply elem_of_nil in Hcut].
   by eapply (Hinv (S (lvl (depth_table c) n))).
 Qed.
+
+(* ---- levelize ---- *)
+Lemma lmax_ext (g h : string → nat) l : (∀ x, x ∈ l → g x = h x) →
+  foldr (λ f acc, max acc (g f)) 0 l = foldr (λ f acc, max acc (h f)) 0 l.
+Proof.
+  induction l as [|a l IH]; intros H; [done|]. simpl. rewrite IH, (H a) by (intros; apply H; by right) || by left. done.
+Qed.
+Lemma max_over_ext g h (X : gset string) : (∀ x, x ∈ X → g x = h x) → max_over g X = max_over h X.
+Proof. intros H. apply lmax_ext. intros x Hx. apply H. by apply elem_of_elements. Qed.
+(* on an acyclic graph the table is a fixed point of the relaxation *)
+Lemma depth_table_fix c n i : closed c → ¬ has_cycle c → c !! n = Some i →
+  lvl (depth_table c) n = max_over (λ f, S (lvl (depth_table c) f)) (n_fi i).
+Proof.
+  intros Hc Hac Hn. change (D c (size c) n = max_over (λ f, S (D c (size c) f)) (n_fi i)).
+  assert (n ∈ dom c) as Hd by (apply elem_of_dom; eauto).
+  pose proof (D_S c (size c) n) as HS. rewrite Hn in HS. rewrite <- HS. apply Nat.le_antisymm.
+  - destruct (D_exists c (size c) Hc n Hd) as [u Hu]. apply (D_upper c (S (size c)) Hc u n _ Hu).
+    pose proof (path_bound _ _ _ _ Hc Hac Hu). lia.
+  - destruct (D_exists c (S (size c)) Hc n Hd) as [u Hu]. apply (D_upper c (size c) Hc u n _ Hu).
+    pose proof (path_bound _ _ _ _ Hc Hac Hu). lia.
+Qed.
+Lemma levelize_go_inv c : closed c → ¬ has_cycle c →
+  ∀ rest lv seen, topo_go c seen rest = true → seen ⊆ dom lv → (∀ x, x ∈ rest → x ∈ dom c) →
+    (∀ m d, lv !! m = Some d → d = lvl (depth_table c) m ∧ m ∈ dom c) →
+    (∀ m d, levelize_go c rest lv !! m = Some d → d = lvl (depth_table c) m ∧ m ∈ dom c) ∧
+    (∀ x, x ∈ rest → x ∈ dom (levelize_go c rest lv)) ∧ dom lv ⊆ dom (levelize_go c rest lv).
+Proof.
+  intros Hc Hac. induction rest as [|n rest IH]; intros lv seen Hgo Hseen Hdom Hlv; simpl.
+  - split; [done|]. split; [by intros x ?%elem_of_nil|done].
+  - simpl in Hgo. apply andb_true_iff in Hgo as [Hfi Hgo]. apply bool_decide_eq_true in Hfi.
+    assert (n ∈ dom c) as Hn by (apply Hdom; by left). apply elem_of_dom in Hn as [i Hi].
+    destruct (lv !! n) as [d0|] eqn:E.
+    + destruct (IH lv ({[n]} ∪ seen) Hgo) as (H1 & H2 & H3); [|by intros; apply Hdom; right|done|].
+      { intros x [->%elem_of_singleton|Hx]%elem_of_union; [apply elem_of_dom; eauto|by apply Hseen]. }
+      split; [done|]. split; [|done]. intros x [->|Hx]%elem_of_cons; [|by apply H2]. apply H3, elem_of_dom. eauto.
+    + set (v := max_over (λ f, S (lvl lv f)) (fanin c n)).
+      assert (v = lvl (depth_table c) n) as Hv.
+      { rewrite (depth_table_fix c n i Hc Hac Hi). unfold v, fanin. rewrite Hi. simpl. apply max_over_ext.
+        intros f Hf. f_equal. assert (f ∈ dom lv) as Hfd. { apply Hseen, Hfi. unfold fanin. by rewrite Hi. }
+        apply elem_of_dom in Hfd as [d Hd]. unfold lvl at 1. rewrite Hd. simpl. by destruct (Hlv f d Hd). }
+      destruct (IH (<[n := v]> lv) ({[n]} ∪ seen) Hgo) as (H1 & H2 & H3); [|by intros; apply Hdom; right| |].
+      { rewrite dom_insert_L. clear -Hseen. set_solver. }
+      { intros m d. destruct (decide (m = n)) as [->|Hne].
+        - rewrite lookup_insert. intros [= <-]. split; [done|]. apply elem_of_dom; eauto.
+        - rewrite lookup_insert_ne by done. apply Hlv. }
+      split; [done|]. rewrite dom_insert_L in H3. split.
+      * intros x [->|Hx]%elem_of_cons; [|by apply H2]. apply H3. clear. set_solver.
+      * clear -H3. set_solver.
+Qed.
+(* levelize(c) = longest path from a node without fan-in, whatever valid topological order topo_sort returned *)
+Theorem levelize_eq_depth c order lv : closed c → ¬ has_cycle c →
+  (∀ n i, c !! n = Some i → lev0 (n_ty i) = true → n_fi i = ∅) →
+  levelize c order = Ok lv →
+  dom lv = dom c ∧ ∀ n d, lv !! n = Some d → (∃ u, path c u n d) ∧ ∀ u k, path c u n k → k ≤ d.
+Proof.
+  intros Hc Hac Hsrc. unfold levelize. destruct (is_cyclic c); [done|]. destruct (is_topo_order c order) eqn:Ht; simpl; [|done].
+  intros [= <-]. unfold is_topo_order, enum_ok in Ht. apply andb_true_iff in Ht as [[_ Hset]%bool_decide_eq_true Hgo].
+  set (init := (λ _ : ninfo, 0) <$> filter (λ p, lev0 (n_ty p.2) = true) c).
+  destruct (levelize_go_inv c Hc Hac order init ∅ Hgo) as (H1 & H2 & _).
+  - clear. set_solver.
+  - intros x Hx. rewrite <- Hset. by apply elem_of_list_to_set.
+  - intros m d. unfold init. rewrite lookup_fmap. destruct (filter _ c !! m) as [i|] eqn:E; simpl; [|done]. intros [= <-].
+    apply map_filter_lookup_Some in E as [Hm Hl]. simpl in Hl. split; [|apply elem_of_dom; eauto].
+    rewrite (depth_table_fix c m i Hc Hac Hm), (Hsrc m i Hm Hl). done.
+  - split.
+    + apply set_eq. intros x. split.
+      * intros [d Hd]%elem_of_dom. by destruct (H1 x d Hd).
+      * intros Hx. apply H2. apply (elem_of_list_to_set (C := gset string)). by rewrite Hset.
+    + intros n d Hd. destruct (H1 n d Hd) as [-> Hn]. by apply depth_table_spec.
+Qed.
+
+(* a graph that has a topological order has no cycle: the checker rejects every list on a cyclic graph *)
+Lemma topo_path_before c l :
+  (∀ l1 n l2, l = l1 ++ n :: l2 → ∀ f, f ∈ fanin c n → f ∈ l1) →
+  ∀ u v p, pathl c u v p → 2 ≤ length p → ∀ l1 l2, l = l1 ++ v :: l2 → u ∈ l1.
+Proof.
+  intros Hs u v p. induction 1 as [u Hu|u w v p Hf Hp IH]; intros Hlen l1 l2 E; [simpl in Hlen; lia|].
+  destruct (decide (2 ≤ length p)) as [Hl|Hl].
+  - specialize (IH Hl l1 l2 E). apply elem_of_list_split in IH as (a & b & ->).
+    rewrite <- app_assoc in E. simpl in E. pose proof (Hs a w _ E u Hf) as Hu. apply elem_of_app. by left.
+  - inversion Hp; subst.
+    + by eapply Hs.
+    + destruct (pathl_hd _ _ _ _ H0) as [? ->]. simpl in Hl. lia.
+Qed.
+Theorem topo_order_acyclic c l : is_topo_order c l = true → ¬ has_cycle c.
+Proof.
+  intros (Hnd & Hdom & Hs)%topo_order_sound (u & k & p & Hp & Hlen).
+  assert (u ∈ l) as Hu by (apply Hdom; by eapply pathl_end_dom).
+  apply elem_of_list_split in Hu as (l1 & l2 & ->).
+  assert (u ∈ l1) as Hin by (eapply (topo_path_before c _ Hs u u p Hp); [lia|done]).
+  apply NoDup_app in Hnd as (_ & Hdis & _). apply (Hdis u Hin). by left.
+Qed.
